@@ -272,13 +272,16 @@ def random_obligations(ctx, tier, mod_random, mod_sfmt):
         lo_ok, hi_ok = z3.fpGEQ(v, mn), z3.fpLT(v, mx)
         notedge, edge = z3.ULT(wcanon, T_EDGE), z3.UGE(wcanon, T_EDGE)
         M = dict(path=pi, kind="real")
+        box_ = box; box = pcw + box_          # the path condition of this path is part of every query
         ZJ.add(tag + ".lower", "getValue >= min for all w, min<max in box", box + [z3.Not(lo_ok)], "unsat", M)
         ZJ.add(tag + ".upper", "getValue < max for all w < 0xFFFFFFFFFFFFFC00, min<max in box", box + [notedge, z3.Not(hi_ok)], "unsat", M)
         ZJ.add(tag + ".upper.p2", "getValue < max at w = 0xC000000000000000 (u=0.75) for all min<max in box [search for a high-probability counterexample]",
-               box + [wcanon == 0xC000000000000000, z3.Not(hi_ok)], "unsat", dict(M, helper=True))
+               box + [wcanon == 0xC000000000000000, z3.fpGEQ(mn, z3.FPVal(1.0, F64)), z3.fpLEQ(mx, z3.FPVal(2.0 ** 62, F64)), z3.Not(hi_ok)], "unsat", dict(M, helper=True))
         ZJ.add(tag + ".upper.edge", "getValue < max for w >= 0xFFFFFFFFFFFFFC00 (to_res53 == 1.0)", box + [edge, z3.Not(hi_ok)], "unsat", dict(M, predicate=PRED_EDGE))
-        ZJ.add(tag + ".upper-weak", "getValue <= max (never beyond max) for all w < 0xFFFFFFFFFFFFFC00, min<max in box", box + [notedge, z3.Not(z3.fpLEQ(v, mx))], "unsat", dict(M, weak=True))
+        if tier == "thorough":
+            ZJ.add(tag + ".upper-weak", "getValue <= max (never beyond max) for all w < 0xFFFFFFFFFFFFFC00, min<max in box", box + [notedge, z3.Not(z3.fpLEQ(v, mx))], "unsat", dict(M, weak=True))
         real_terms.append(v)
+        box = box_
 
     # ---- getIntValue through the public entry point (virtual dispatch through the vtable written by the constructor)
     ust = generic()
@@ -295,6 +298,7 @@ def random_obligations(ctx, tier, mod_random, mod_sfmt):
         if any(ret.eq(t) for t in seen_terms):
             direct.append((tag + ".range", "value term identical to an earlier path's", True, "structural")); continue
         seen_terms.append(ret)
+        ibox_ = ibox; ibox = [z3.substitute(c, (wv, wcanon)) for c in r.pc] + ibox_
         imin, imax = z3.fpToSBV(z3.RTZ(), mn, z3.BitVecSort(32)), z3.fpToSBV(z3.RTZ(), mx, z3.BitVecSort(32))
         ok = z3.And(ret >= imin, ret < imax)
         M = dict(path=pi, kind="int")
@@ -317,6 +321,7 @@ def random_obligations(ctx, tier, mod_random, mod_sfmt):
                            ibox + [z3.fpGEQ(y, mn), z3.fpLEQ(y, mx), z3.Not(inr(z3.fpRoundToIntegral(z3.RTN(), y)))], "unsat", dict(M, conv=True))
                 else:
                     ZJ.add(tag + ".conv", "(int) conversion of floor(value) is defined for all w < 0xFFFFFFFFFFFFFC00, integer min<max", ibox + [notedge, z3.Not(inr(x))], "unsat", dict(M, conv=True))
+        ibox = ibox_
 
     # ---- to_res53 kernel (SFMT.h) from the SFMT wrapper's IR
     ex2 = Exec(mod_sfmt, {}, max_paths=4)
